@@ -1,12 +1,15 @@
 import CMacVerif.Lemmas.YamlText
 import CMacVerif.Lemmas.Units
+import CMacVerif.Lemmas.Snapshot
 /-!
 # C20 — parameter files and units round-trip
 
 Models: `CMacVerif/Model/Yaml.lean` (lexer, parser, printer of `YAMLDictionary`),
 `CMacVerif/Model/Units.lean` + generated `CMacVerif/Gen/Units.lean` (`Unit`, `UnitConverter`).
 
-NOT covered here: the HDF5 snapshot write/read clause of the property (no model of HDF5).
+The HDF5 snapshot clause is covered at the level of INDEX MAPS (`CMacVerif/Model/Snapshot.lean`:
+which file position every cell is written to, which position every reader fetches); HDF5 itself,
+the floating point position → index computations and the stored doubles are not modelled.
 -/
 
 namespace CMacVerif.Yaml
@@ -148,6 +151,118 @@ theorem parseText_printUsedText (used d : Dict) (hs : Sorted d) (hk : CleanKeys 
     exact (hu x hx).1
 
 end CMacVerif.Yaml
+
+namespace CMacVerif.Snapshot
+
+/-! ## HDF5 snapshot: index maps of writer and readers -/
+
+/-- **Writer layout**, for EVERY block size `B > 0`, every number and shape of subgrids: cell `ci`
+of subgrid `g` is stored at file position `g * N + ci` (N = cells per subgrid) — whatever the
+number of blocks a subgrid is streamed in, complete or partial — and nothing is stored beyond
+`G * N`.  (One dataset; the writer uses the same offsets for every dataset, which the
+correspondence checks on the real file, dataset by dataset.) -/
+theorem snapshot_layout {α : Type} (B : Nat) (hB : 0 < B) (L : Layout) (field : Nat × Nat × Nat → α) :
+    (∀ g ci, g < L.G → ci < L.N → snapshot B L field (g * L.N + ci) = some (field (globalCell L g ci))) ∧
+    (∀ k, L.G * L.N ≤ k → snapshot B L field k = none) := by
+  have h := writeAll_spec B L.N hB (fun g ci => field (globalCell L g ci)) L.G
+  exact ⟨h.2.1, h.2.2⟩
+
+/-- **Buffered reader ∘ writer = id**: for every block size, every subgrid layout (cell counts per
+subgrid may differ in x, y, z) and every cell of the grid, `BufferedCMacIonizeSnapshotDensityFunction`
+on the same geometry fetches exactly the value the writer stored for that cell. -/
+theorem buffered_roundtrip {α : Type} (B : Nat) (hB : 0 < B) (L : Layout) (hL : L.ok)
+    (field : Nat × Nat × Nat → α) (c : Nat × Nat × Nat) (hc : L.inGrid c) :
+    bufferedRead L (snapshot B L field) c = some (field c) := by
+  obtain ⟨hsg, hci, hgc⟩ := cell_decomp L hL c hc
+  have dx := div_sub (x := c.1) hL.1
+  have dy := div_sub (x := c.2.1) hL.2.1
+  have dz := div_sub (x := c.2.2) hL.2.2
+  have hread : bufferedRead L (snapshot B L field) c =
+      get (bufferSubgrid L (snapshot B L field) (sgOf L c)) (ciOf L c) := rfl
+  rw [hread]
+  unfold bufferSubgrid
+  simp only [Nat.one_mul, Nat.add_zero]
+  rw [get_fill (F := fun i => if i < L.N then snapshot B L field (sgOf L c * L.N + i) else none)
+    (h := fun _ _ => rfl)]
+  have hmem : ciOf L c ∈
+      (triples L.sx L.sy L.sz).map (fun t => t.1 * L.sy * L.sz + t.2.1 * L.sz + t.2.2) := by
+    refine List.mem_map.2 ⟨(c.1 - c.1 / L.sx * L.sx, c.2.1 - c.2.1 / L.sy * L.sy,
+      c.2.2 - c.2.2 / L.sz * L.sz), ?_, rfl⟩
+    rw [mem_triples]; exact ⟨dx.2, dy.2, dz.2⟩
+  rw [if_pos ⟨by simpa using hci, hmem⟩]
+  simp only [hci, if_true]
+  rw [(snapshot_layout B hB L field).1 _ _ hsg hci, hgc]
+
+/-- **Plain reader ∘ writer = id**: `CMacIonizeSnapshotDensityFunction` bins every file position by
+the coordinates stored at that position; when coordinates and values went through the same writer
+(any block size, any layout) every cell of the grid gets its own value back. -/
+theorem plain_roundtrip {α : Type} (B : Nat) (hB : 0 < B) (L : Layout) (hL : L.ok)
+    (field : Nat × Nat × Nat → α) (c : Nat × Nat × Nat) (hc : L.inGrid c) :
+    plainRead L.nx L.ny L.nz (L.G * L.N) (snapshot B L id) (snapshot B L field) c = some (field c) := by
+  obtain ⟨hsg, hci, hgc⟩ := cell_decomp L hL c hc
+  have hN : 0 < L.N := by omega
+  unfold plainRead plainGrid
+  have hF : ∀ i ∈ List.range (L.G * L.N), snapshot B L field i =
+      (fun j => some (field (three L.ny L.nz j)))
+        (plainKey L.nx L.ny L.nz (snapshot B L id) i) := by
+    intro i hi
+    rw [List.mem_range] at hi
+    have hdm := Nat.div_add_mod i L.N
+    have hg : i / L.N < L.G := by rw [Nat.div_lt_iff_lt_mul hN]; exact hi
+    have hm : i % L.N < L.N := Nat.mod_lt _ hN
+    have hi' : i / L.N * L.N + i % L.N = i := by rw [Nat.mul_comm]; exact hdm
+    have hin := globalCell_inGrid L hL _ _ hg hm
+    have e1 := (snapshot_layout B hB L field).1 _ _ hg hm
+    have e2 := (snapshot_layout B hB L id).1 _ _ hg hm
+    rw [hi'] at e1 e2
+    simp only [plainKey, e1, e2, id, one]
+    rw [three_one hin.2.1 hin.2.2]
+  rw [get_fill (F := fun j => some (field (three L.ny L.nz j))) (h := hF)]
+  have hlt : one L.ny L.nz c < L.nx * L.ny * L.nz := one_lt hc.1 hc.2.1 hc.2.2
+  have hle : (sgOf L c + 1) * L.N ≤ L.G * L.N := Nat.mul_le_mul_right _ hsg
+  rw [Nat.succ_mul] at hle
+  have hmem : one L.ny L.nz c ∈
+      (List.range (L.G * L.N)).map (plainKey L.nx L.ny L.nz (snapshot B L id)) := by
+    refine List.mem_map.2 ⟨sgOf L c * L.N + ciOf L c, List.mem_range.2 (by omega), ?_⟩
+    simp only [plainKey, (snapshot_layout B hB L id).1 _ _ hsg hci, hgc, id]
+  rw [if_pos ⟨by simpa using hlt, hmem⟩]
+  simp only [one]
+  rw [three_one hc.2.1 hc.2.2]
+
+/-- the legacy writer `write(DensityGrid&, …)` streams the whole Cartesian grid with the same block
+loop (`block_offset = 0`, cell numbering `ix*ny*nz + iy*nz + iz`): it is the layout with a single
+subgrid, so both theorems apply to it -/
+theorem legacy_roundtrip {α : Type} (B : Nat) (hB : 0 < B) (nx ny nz : Nat) (h : 0 < nx ∧ 0 < ny ∧ 0 < nz)
+    (field : Nat × Nat × Nat → α) (c : Nat × Nat × Nat) (hc : c.1 < nx ∧ c.2.1 < ny ∧ c.2.2 < nz) :
+    plainRead nx ny nz (nx * ny * nz) (snapshot B ⟨1, 1, 1, nx, ny, nz⟩ id)
+      (snapshot B ⟨1, 1, 1, nx, ny, nz⟩ field) c = some (field c) := by
+  have := plain_roundtrip B hB ⟨1, 1, 1, nx, ny, nz⟩ h field c
+    (by simpa [Layout.inGrid, Layout.nx, Layout.ny, Layout.nz] using hc)
+  simpa [Layout.nx, Layout.ny, Layout.nz, Layout.G, Layout.N] using this
+
+/-- the file does not depend on the block size -/
+theorem snapshot_blocksize_irrelevant {α : Type} (B B' : Nat) (hB : 0 < B) (hB' : 0 < B') (L : Layout)
+    (hL : L.ok) (field : Nat × Nat × Nat → α) : snapshot B L field = snapshot B' L field := by
+  funext k
+  have hN : 0 < L.N := Nat.mul_pos (Nat.mul_pos hL.1 hL.2.1) hL.2.2
+  by_cases hk : k < L.G * L.N
+  · have hg : k / L.N < L.G := by rw [Nat.div_lt_iff_lt_mul hN]; exact hk
+    have hm : k % L.N < L.N := Nat.mod_lt _ hN
+    have e : k / L.N * L.N + k % L.N = k := by rw [Nat.mul_comm]; exact Nat.div_add_mod k L.N
+    have h1 := (snapshot_layout B hB L field).1 _ _ hg hm
+    have h2 := (snapshot_layout B' hB' L field).1 _ _ hg hm
+    rw [e] at h1 h2
+    rw [h1, h2]
+  · rw [(snapshot_layout B hB L field).2 k (by omega), (snapshot_layout B' hB' L field).2 k (by omega)]
+
+/-- non-vacuity and a concrete instance: 2 x 1 x 2 subgrids of 1 x 3 x 2 cells, blocks of 4 cells
+(every subgrid is written in one full and one partial block) -/
+example : Layout.ok ⟨2, 1, 2, 1, 3, 2⟩ ∧ Layout.inGrid ⟨2, 1, 2, 1, 3, 2⟩ (1, 2, 3) ∧
+    bufferedRead ⟨2, 1, 2, 1, 3, 2⟩ (snapshot 4 ⟨2, 1, 2, 1, 3, 2⟩ id) (1, 2, 3) = some (1, 2, 3) :=
+  ⟨by decide, by decide,
+   buffered_roundtrip 4 (by decide) ⟨2, 1, 2, 1, 3, 2⟩ (by decide) id (1, 2, 3) (by decide)⟩
+
+end CMacVerif.Snapshot
 
 namespace CMacVerif.Units
 open CMacVerif.Gen.Units
